@@ -546,7 +546,8 @@ struct Raw {
                 l += " unit=" + SAFE(ostr(p.unit())) + " unc=" + SAFE(od(p.uncertainty())) + " dt=" + SAFE(enc_dtype(p.dataType()));
                 l += " vals=" + SAFE(([&]() { std::string o = "["; for (auto &v : p.values()) o += variant(v) + ","; return o + "]"; })());
                 lines.push_back(l);
-            } catch (...) { lines.push_back("P ! in=" + me); }
+            } catch (const std::exception &e) { if (std::getenv("NIXV_DEBUG_RAW")) std::cerr << "RAWEXC getProperty(" << i << ") of " << me << ": " << e.what() << "\n"; lines.push_back("P ! in=" + me); }
+              catch (...) { lines.push_back("P ! in=" + me); }
         }
         size_t n = 0; try { n = (size_t)s.sectionCount(); } catch (...) {}
         for (size_t i = 0; i < n; i++) { try { section(s.getSection(i), me); } catch (...) { lines.push_back("S ! in=" + me); } }
@@ -618,6 +619,9 @@ static std::string raw_diff(const std::vector<std::string> &a, const std::vector
     for (size_t i = 0; i < a.size(); i++) {
         if (a[i] == b[i]) continue;
         std::vector<std::string> x = split(a[i]), y = split(b[i]);
+        if (std::getenv("NIXV_DEBUG_RAW")) std::cerr << "RAWDIFF before: " << a[i] << "\nRAWDIFF after : " << b[i] << "\n";
+        // an entity that was there before the close and cannot be read at all after the reopen (its dump line is "<K> ! in=...")
+        if (y.size() >= 2 && y[1] == "!" && !(x.size() >= 2 && x[1] == "!")) return "unreadable-after-reopen:" + x[0];
         if (x.size() != y.size()) return x[0] + ".fields";
         for (size_t j = 0; j < x.size(); j++) if (x[j] != y[j]) return x[0] + "." + x[j].substr(0, x[j].find('='));
         return x[0] + ".?";
